@@ -668,6 +668,39 @@ def run_line(line):
         except (DomainError, CoordinateMissing):
             return 'SKIP'
         return repr_tokens(repr(ld))
+    if cmd == 'RTOBJ':
+        # eval(repr(obj)) == obj for the object that the SHOW* command in the rest of the line prints
+        sub = ts[1]
+        if sub == 'SHOWPOINT':
+            p, _ = sx.parse_point(ts, 2)
+            o = mkpoint(p)
+        elif sub == 'SHOWPARTIAL':
+            e, _ = sx.parse_expr(ts, 3)
+            o = Partial(build(e), sx.name_of(int(ts[2])))
+        elif sub == 'SHOWDERIV':
+            e, _ = sx.parse_expr(ts, 2)
+            x = build(e)
+            if len(x._variable_names) > 1:
+                return 'SKIP'
+            o = Derivative(x)
+        elif sub == 'SHOWDIFF':
+            e, _ = sx.parse_expr(ts, 2)
+            o = Differential(build(e))
+        elif sub == 'SHOWLOC':
+            p, k = sx.parse_point(ts, 2)
+            e, _ = sx.parse_expr(ts, k)
+            try:
+                o = LocatedDifferential(build(e), mkpoint(p))
+            except (DomainError, CoordinateMissing):
+                return 'SKIP'
+        else:
+            return 'ERROR RTOBJ ' + sub
+        try:
+            back = eval(repr(o), dict(PUBLIC))
+        except Exception as ex:  # noqa: BLE001
+            return 'false (%s while evaluating %s)' % (type(ex).__name__, repr(o)[:120])
+        ok = back == o and o == back and not (back != o) and repr(back) == repr(o)
+        return 'true' if ok else 'false (%s)' % repr(o)[:160]
     if cmd == 'PARSEBACK':
         e, _ = sx.parse_expr(ts, 1)
         o = build(e)
